@@ -232,6 +232,16 @@ pub fn check_case(ctx: &Ctx, case: &PathCase, rep: &mut CaseReport) -> CaseResul
         }
     }
 
+    // a bare name is never looked up in the working directory (empty PATH entries are
+    // skipped, not taken for "."): a runnable decoy of that name sits in the child's cwd
+    if case.slash.is_none() {
+        let here = if case.cwd { cwd_dir.clone() } else { root.clone() };
+        if !here.join(name).exists() {
+            link_vchild(&here, name);
+            set_mode(&here, "report", &[&prefix.to_string_lossy(), "0", ""]);
+        }
+    }
+
     // expected outcome
     let candidates: Vec<&(PathBuf, Option<i32>)> = model.iter().flatten().collect();
     let winner: Option<PathBuf> = match &slash_expect {
